@@ -124,7 +124,7 @@ var okResult = map[string]bool{
 
 func failingReturn(r *ssa.Return) bool {
 	for _, res := range r.Results {
-		if b, ok := constBool(res); ok && !b && okResult[FuncName(r.Parent())] {
+		if b, ok := constBool(res); ok && !b && okStyle(r.Parent()) {
 			return true
 		}
 		if k, ok := constInt(res); ok && k != 0 && isNamedStatus(res.Type()) {
@@ -291,7 +291,7 @@ func failingEdges(fn *ssa.Function) func(from, to *ssa.BasicBlock) bool {
 				continue
 			}
 			for i, e := range ph.Edges {
-				if bv, isb := constBool(e); isb && !bv && okResult[FuncName(fn)] {
+				if bv, isb := constBool(e); isb && !bv && okStyle(fn) {
 					set[edge{b.Preds[i], b}] = true
 				}
 				if k, isk := constInt(e); isk && k != 0 && isNamedStatus(e.Type()) {
@@ -859,4 +859,10 @@ func (w *w1) bmapHelperCall(in ssa.Instruction) bool {
 		return false
 	}
 	return len(w.c.P.CallsIn(h, funcIs(w.c.V.bmap))) > 0
+}
+
+// okStyle: fn is one of the functions whose boolean result means "it worked".
+func okStyle(fn *ssa.Function) bool {
+	v, _ := byFunc(okResult, FuncName(fn))
+	return v
 }
